@@ -28,7 +28,7 @@ def imbl_method(t):
     return m.group(2) if m else None
 
 
-def diff_switches(body, adt_suffix="vector::VectorDiff"):
+def diff_switches(body, adt_suffix="::VectorDiff"):
     """blocks whose terminator switches on the discriminant of a VectorDiff value: [(block, info)]"""
     out = []
     for b in sorted(body.reachable()):
@@ -93,7 +93,7 @@ def apply_table(F):
 
 def diff_agg_variant(e):
     """variant name if e is a VectorDiff aggregate."""
-    if e[0] == "agg" and e[1] == "adt" and e[2].endswith("vector::VectorDiff"):
+    if e[0] == "agg" and e[1] == "adt" and e[2].endswith("::VectorDiff"):
         return e[3]
     return None
 
